@@ -15,7 +15,7 @@ class XResult:
     pass
 
 
-def run_echsx(root, vtodo_text, workdir, args=("-v",), timescale=None, timeout=60, flavour="asan"):
+def run_echsx(root, vtodo_text, workdir, args=("-v",), timescale=None, timeout=60, flavour="asan", clock_at=None):
     """runs h_echsx on the request; returns XResult(journal, stderr, rc, log lines, mail text or None, wall)"""
     exe = build.exe(root, flavour, "h_echsx")
     env = dict(os.environ)
@@ -30,6 +30,8 @@ def run_echsx(root, vtodo_text, workdir, args=("-v",), timescale=None, timeout=6
     env["HX_SENDMAIL"] = build.exe(root, flavour, "h_sendmail")
     if timescale is not None:
         env["HX_TIMESCALE"] = "%.9f" % timescale
+    if clock_at is not None:
+        env["HX_CLOCK_AT"] = "%d" % clock_at
     r = XResult()
     t0 = time.time()
     try:
